@@ -529,4 +529,56 @@ theorem buildX_default (f : Bool) (es : List Entry) (hn : ∀ e ∈ es, e.isNil 
     simp only [buildX, newServiceX_default f col e (hn e List.mem_cons_self), List.foldl_cons]
     exact ih (fun x hx => hn x (List.mem_cons_of_mem _ hx)) _
 
+/-! ### the completion helper as the HANDLERS use it (`CheckInvokeCBFunc(cb, e, result)` with any `(e, result)`) -/
+
+/-- the helper is transparent: nil test, then the call — for every function value, argument and state of `completed`
+it does what calling the function does (a nil function is never called), a panic of the function included -/
+theorem checkInvokeAny_eq_call (f : CbF) (byH isErr bad d : Bool) :
+    checkInvokeAny f byH isErr bad d = f.call byH isErr bad d := by
+  cases f <;> simp [checkInvokeAny, CbF.isNil, CbF.call]
+
+/-- a handler body that completes through ANY helper which does what the call does is the body that calls -/
+theorem playBodyVia_congr (inv : CbF → Bool → Bool → Bool → Bool → Exec × Bool) (f : CbF) (bad : Bool)
+    (hinv : ∀ byH isErr d, inv f byH isErr bad d = f.call byH isErr bad d) (cs : List Bool) :
+    ∀ d, playBodyVia inv f bad cs d = playBody f bad cs d := by
+  induction cs with
+  | nil => intro d; rfl
+  | cons c r ih => intro d; simp only [playBodyVia, playBody, hinv, ih]
+
+theorem playBodyVia_checkInvokeAny (f : CbF) (bad : Bool) (cs : List Bool) (d : Bool) :
+    playBodyVia checkInvokeAny f bad cs d = playBody f bad cs d :=
+  playBodyVia_congr _ f bad (fun _ _ _ => checkInvokeAny_eq_call ..) cs d
+
+/-- the recovering variant never panics -/
+theorem checkInvokeAnyRecovering_panicking (f : CbF) (byH isErr bad d : Bool) :
+    (checkInvokeAnyRecovering f byH isErr bad d).1.panicking = false := by
+  simp [checkInvokeAnyRecovering, Exec.ret]
+
+theorem playBodyVia_recovering_panicking (f : CbF) (bad : Bool) (cs : List Bool) :
+    ∀ d, (playBodyVia checkInvokeAnyRecovering f bad cs d).1.panicking = false := by
+  induction cs with
+  | nil => intro d; rfl
+  | cons c r ih =>
+    intro d
+    simp only [playBodyVia, checkInvokeAnyRecovering_panicking, Bool.false_eq_true, if_false, Exec.andThen_panicking, ih,
+      Bool.or_self]
+
+theorem checkInvokeAnyRecovering_evs_byHandler (f : CbF) (isErr bad d : Bool) :
+    ∀ e ∈ (checkInvokeAnyRecovering f true isErr bad d).1.evs, e = .cb true isErr := by
+  intro e he
+  simp only [checkInvokeAnyRecovering, checkInvokeAny_eq_call, Exec.recoverWith_evs, Exec.ret_evs, List.append_nil,
+    ite_self] at he
+  exact CbF.call_evs_byHandler f isErr bad d e he
+
+theorem playBodyVia_recovering_evs_byHandler (f : CbF) (bad : Bool) (cs : List Bool) :
+    ∀ d, ∀ e ∈ (playBodyVia checkInvokeAnyRecovering f bad cs d).1.evs, ∃ isErr, e = .cb true isErr := by
+  induction cs with
+  | nil => intro d; simp [playBodyVia]
+  | cons c r ih =>
+    intro d e he
+    simp only [playBodyVia, checkInvokeAnyRecovering_panicking, Bool.false_eq_true, if_false, Exec.andThen_evs] at he
+    rcases List.mem_append.1 he with h1 | h1
+    · exact ⟨_, checkInvokeAnyRecovering_evs_byHandler f _ _ _ e h1⟩
+    · exact ih _ e h1
+
 end Cell2v.ApiMap
